@@ -52,6 +52,55 @@ def gen_case(rng, tier, k):
     return {"bnet": bnet, "cfg": cfg, "ops": prefix, "queries": queries}
 
 
+_calls = []
+_heur = []
+
+
+def _patch_cand():
+    """record the solver calls and the heuristic retained set of candidate computation"""
+    import biobalm._sd_attractors.attractor_candidates as ac
+
+    if getattr(ac.compute_fixed_point_reduced_STG, "_c08", False):
+        return
+    orig = ac.compute_fixed_point_reduced_STG
+
+    def rec(pn, retained_set={}, ensure_subspace={}, avoid_subspaces=[], solution_limit=None):
+        r = orig(pn, retained_set, ensure_subspace=ensure_subspace, avoid_subspaces=avoid_subspaces, solution_limit=solution_limit)
+        _calls.append((dict(retained_set), solution_limit, [dict(x) for x in r]))
+        return r
+
+    rec._c08 = True
+    ac.compute_fixed_point_reduced_STG = rec
+    orig_h = ac.make_heuristic_retained_set
+
+    def rech(graph, nfvs, avoid_dnf):
+        r = orig_h(graph, nfvs, avoid_dnf)
+        _heur.append((list(nfvs), dict(r)))
+        return r
+
+    ac.make_heuristic_retained_set = rech
+
+
+def cand_line(sd, ni, i, obs, greedy, result):
+    """the `CAND` command replaying this call on the Lean model of the branching logic"""
+    node = obs["space"]
+    cfg = sd.config
+    if _heur:
+        nfvs, ret0 = _heur[-1]
+    else:
+        nfvs, ret0 = [], {}
+    avoid = []
+    if obs["expanded"]:
+        for s in sd.dag.successors(i):
+            avoid.append(sd.edge_stable_motif(i, s, reduced=True))
+    head = [ni.sp(node), "1" if greedy else "0", str(cfg["retained_set_optimization_threshold"]), str(cfg["attractor_candidates_limit"]),
+            ",".join(str(ni.idx[v]) for v in nfvs) or "-", ni.sp(ret0), ",".join(str(ni.idx[v]) for v in ret0) or "-"]
+    trans = []
+    for ret, lim, ans in _calls:
+        trans.append(f"{ni.sp(ret)}/{lim}/" + ",".join(ni.st(node | a) for a in ans))
+    return "CAND " + " ".join(head) + " ; " + " ".join(ni.sp(a) for a in avoid) + " ; " + " ".join(trans)
+
+
 def run_case(case):
     if "batch" in case:
         out = {"fails": [], "diffs": [], "tags": set(), "nontrivial": False, "sig": common.case_hash(case)}
@@ -60,13 +109,16 @@ def run_case(case):
             for f in r["fails"]:
                 f["case"] = c
             out["fails"] += r["fails"]
+            out["diffs"] = out.get("diffs", []) + r["diffs"]
             out["tags"] |= set(r["tags"])
             out["nontrivial"] = out["nontrivial"] or r["nontrivial"]
         out["tags"] = sorted(out["tags"] | {"batch"})
         return out
     plain._patch_recorders()
+    _patch_cand()
     sd = make_sd(case)
     ni = common.NetInfo(sd.network)
+    model_lines = {}
     for op in case["ops"]:
         try:
             plain.apply_op(sd, ni, op)
@@ -85,6 +137,8 @@ def run_case(case):
         d["attractor_seeds"] = None
         d["attractor_sets"] = None
         obs = node_obs(sd, i)
+        del _calls[:]
+        del _heur[:]
         try:
             c = sd.node_attractor_candidates(i, compute=True, greedy_asp_minification=greedy, simulation_minification=sim)
             c = [dict(x) for x in c]
@@ -95,10 +149,30 @@ def run_case(case):
                 tags.add("limit-error")
             else:
                 raise
+        if not sim:
+            # without simulation pruning the result is a function of the solver answers: replay on the model
+            model_lines[q] = (cand_line(sd, ni, i, obs, greedy, c), [(ni.sp(r), l) for r, l, _ in _calls],
+                              None if c is None else [ni.st(x) for x in c])
         orc.own(q, obs["space"], obs["succ"])
         res.append((q, obs, c, greedy, sim))
+    for q, (line, _, _) in model_lines.items():
+        orc.ask(("cand", q), line)
     orc.run()
     fails = []
+    diffs = []
+    for q, (line, real_calls, real_res) in model_lines.items():
+        rep = orc.get(("cand", q))
+        if rep.startswith(("ORACLE-BAD", "HEUR-DIFF", "bad")):
+            diffs.append({"stream": "ORACLE reduced-STG solver / heuristic retained set", "reply": rep[:200], "line": line[:300]})
+            continue
+        out, _, calls = rep.partition(" | ")
+        mcalls = [(c.split("/")[0], int(c.split("/")[1])) for c in calls.split()]
+        mres = None if out == "err" else ([] if out == "ok " or out == "ok" else out[3:].split(","))
+        if mres != real_res:
+            diffs.append({"stream": "OBS candidate list before simulation vs Impl.candidatesModel", "impl": real_res, "model": mres, "line": line[:300]})
+        elif not (out == "err" and not mcalls) and mcalls != real_calls:
+            diffs.append({"stream": "OBS solver call sequence vs Impl.candidatesModel", "impl": real_calls[:8], "model": mcalls[:8], "line": line[:300]})
+        tags.add("model-replay")
     nontriv = False
     for q, obs, c, greedy, sim in res:
         own = orc.own_idx(q)
@@ -116,7 +190,7 @@ def run_case(case):
         tags.add("node:" + ("minimal" if obs["minimal"] else "expanded" if obs["expanded"] else "stub"))
     for k_ in case["cfg"]:
         tags.add("cfg:" + k_)
-    return {"fails": fails, "diffs": [], "tags": sorted(tags), "nontrivial": nontriv, "sig": common.case_hash(case),
+    return {"fails": fails, "diffs": diffs, "tags": sorted(tags), "nontrivial": nontriv, "sig": common.case_hash(case),
             "sample": {"queries": len(res)}}
 
 
